@@ -563,6 +563,17 @@ TTxn ==
            ELSE IF stmts[i].meta.noref THEN [ok |-> FALSE, g |-> g]
            ELSE LET o == IF own THEN ApplyStmt(g, stmts[i].meta.ast) ELSE ApplyStmtSplit(gr, g, stmts[i].meta.ast)
                 IN IF o.ok THEN run(i + 1, o.g, own) ELSE [ok |-> FALSE, g |-> g]
+         (* alternative readings used only to attribute a divergence: rows matched on Gm, effects applied to the transaction's state *)
+         Bare(g) == LET have == {gr.nodes[i].id : i \in 1..Len(gr.nodes)}
+                        fresh == SelectSeq(g.nodes, LAMBDA nd : nd.id \notin have)
+                    IN [gr EXCEPT !.nodes = gr.nodes \o [i \in 1..Len(fresh) |-> [id |-> fresh[i].id, labels |-> <<>>, props |-> <<>>]]]
+         RECURSIVE runAs(_, _, _)
+         runAs(i, g, how) ==
+           IF i > n THEN [ok |-> TRUE, g |-> g]
+           ELSE IF sres[i].out # "rows" THEN runAs(i + 1, g, how)
+           ELSE IF stmts[i].meta.noref THEN [ok |-> FALSE, g |-> g]
+           ELSE LET o == ApplyStmtSplit(IF how = "hybrid" THEN Bare(g) ELSE gr, g, stmts[i].meta.ast)
+                IN IF o.ok THEN runAs(i + 1, o.g, how) ELSE [ok |-> FALSE, g |-> g]
          pred == run(1, gr, TRUE)
          committed == Rec[l].end = "commit" /\ IsRows
          expected == IF committed THEN pred.g ELSE gr
@@ -571,9 +582,14 @@ TTxn ==
         ELSE LET d == GraphDiff(expected, obs) IN
              IF d = "" THEN TRUE
              ELSE Emit(Finding(Meta.prop, d,
-                    [cause |-> LET alt == run(1, gr, FALSE) IN
+                    [cause |-> LET alt == runAs(1, gr, "hybrid") pure == runAs(1, gr, "pure") IN
+                               (* what the engine does today: a statement matches against the committed snapshot plus the nodes created  *)
+                               (* earlier in the transaction, seen as bare nodes (full scans find them, labels and properties do not)    *)
                                IF committed /\ alt.ok /\ GraphDiff(alt.g, obs) = ""
                                THEN "statements-read-the-committed-snapshot"
+                               (* not even those: every statement matched against the committed snapshot alone *)
+                               ELSE IF committed /\ pure.ok /\ GraphDiff(pure.g, obs) = ""
+                               THEN "statements-read-only-the-committed-snapshot"
                                ELSE IF committed /\ hasFailed THEN "a-failed-statement-is-part-of-the-commit"
                                ELSE "none",
                      before |-> sizes(gr), predicted |-> sizes(expected), observed |-> sizes(obs),
